@@ -93,7 +93,19 @@ func (a *Arg) Resolve(field *Field, args map[string]interface{}) (result interfa
 	case typeStr:
 		result = a.Type
 	case defaultValueStr:
-		result = a.Default
+		result = defaultValueText(a.Default)
 	}
 	return
+}
+
+// defaultValueText returns what the defaultValue field of an __InputValue
+// reports. That field is a String. Strings and the other plain scalars are
+// coerced by the String type as they are, enum values, lists, input objects,
+// and times can not be so they are given as the text they have in a schema.
+func defaultValueText(v interface{}) interface{} {
+	switch v.(type) {
+	case nil, string, bool, int, int8, int16, int32, int64, uint, uint8, uint16, uint32, uint64, float32, float64:
+		return v
+	}
+	return valueString(v)
 }
